@@ -41,7 +41,9 @@ def main():
   if '--tier' in sys.argv: tier = sys.argv[sys.argv.index('--tier') + 1]
   src = f'/tmp/wtout/{pid_src}'
   dst = f'/verif/seeded/{pid}-{rnd}m{k}'
-  if os.path.isdir(dst) and not os.path.exists(f'{src}/m{k}.diff'):
+  import glob as _glob
+  rebased = bool(_glob.glob(f'{dst}/patch_before_fix_*.diff'))   # the kept patch was rebased onto a later fix commit
+  if os.path.isdir(dst) and (rebased or not os.path.exists(f'{src}/m{k}.diff')):
     diff, demo = f'{dst}/patch.diff', f'{dst}/demo.py'
     meta = json.load(open(f'{dst}/meta.json'))
   else:
